@@ -1,6 +1,7 @@
 pub mod biff8;
 pub mod cfb;
 pub mod ods;
+pub mod ovba;
 pub mod xlsb;
 pub mod xlsx;
 pub mod xml;
